@@ -63,12 +63,20 @@ func NewJsonPlusReader(r io.Reader) io.Reader {
 // error when comment not match.
 var commentNotMatch = errors.New("comment not match")
 
+// the max size of token, that is, the text without string or comment, or a string or comment.
+const maxTokenSize = 1 << 30
+
 // the reader to ignore specified comments or tags.
 func NewCommentReader(r io.Reader, startMatches, endMatches [][]byte, isComments, requiredMatches []bool) io.Reader {
 	v := &commentReader{
 		s: bufio.NewScanner(r),
 		b: &bytes.Buffer{},
 	}
+
+	// The text between two strings or comments, a string or a comment is one token of the scanner,
+	// whose default limit of 64KB fails a larger one (for example, a long array of numbers or a
+	// certificate in a string) as "token too long".
+	v.s.Buffer(nil, maxTokenSize)
 
 	v.s.Split(func(data []byte, atEOF bool) (advance int, token []byte, err error) {
 		if atEOF && len(data) == 0 {
